@@ -33,14 +33,81 @@ func main() {
 
 type M = vh.M
 
+// Value is the total the SPECIFICATION sees; Real = embed(vmap, Value) is the total handed to the
+// code (Sorting.tla "totals").  Everything below passes Real to the real code and records Value.
 type Key struct {
 	Name  string
 	Value int64
+	Real  int64
 }
 
 type jkey struct {
-	Name  []int `json:"name"`
-	Value int64 `json:"value"`
+	Name  []int  `json:"name"`
+	Value int64  `json:"value"`
+	Real  string `json:"real,omitempty"` // decimal, for the reader of a replay (TLC ignores it)
+}
+
+// value map of a pool: W = 0 - totals as they are; otherwise the totals are W-bit integers and
+// the code gets  v * 2^(64-W) + off  (off: "zero" 0, "one" 1, "top" 2^(64-W)-1); off "lsb": the
+// totals have W+1 bits, v = 2*hi + lo, and the code gets  hi * 2^(64-W) + lo
+type VMap struct {
+	W   int    `json:"w"`
+	Off string `json:"off"`
+}
+
+var idMap = VMap{0, "zero"}
+
+func (m VMap) embed(v int64) int64 {
+	if m.W == 0 {
+		return v
+	}
+	lo, hi := m.domain()
+	if m.W < 2 || m.W > 16 || v < lo || v > hi {
+		panic(fmt.Sprintf("value %d outside the %d-bit type", v, m.W))
+	}
+	sh := uint(64 - m.W)
+	if m.Off == "lsb" {
+		return (v>>1)<<sh + v&1
+	}
+	var off int64
+	switch m.Off {
+	case "zero":
+	case "one":
+		off = 1
+	case "top":
+		off = int64(uint64(1)<<sh - 1)
+	default:
+		panic("bad offset tag " + m.Off)
+	}
+	return v<<sh + off
+}
+
+// smallest and largest total of the specification's type
+func (m VMap) domain() (int64, int64) {
+	w := m.W
+	if m.Off == "lsb" {
+		w++
+	}
+	return -(int64(1) << (w - 1)), int64(1)<<(w-1) - 1
+}
+
+func (m VMap) keys(names []string, vals []int64) []Key {
+	out := make([]Key, len(names))
+	for i, n := range names {
+		out[i] = Key{n, vals[i], m.embed(vals[i])}
+	}
+	return out
+}
+
+func nv(k Key) sorting.NameValuePair { return sorting.NameValuePair{Name: k.Name, Value: k.Real} }
+
+// a total split into two cells (table rows / columns are ordered by the SUM of their cells)
+func split(v int64) (int64, int64) {
+	a := v / 2
+	if v > -1000 && v < 1000 {
+		a = 7 - v
+	}
+	return a, v - a
 }
 
 // ------------------------------------------------------------------ key universes
@@ -59,6 +126,16 @@ var (
 		"2024-01-01 00:00:00", "2024-02-29 12:00:00", "2022-09-03 01:02:03", "2024-01-02 10:12:00", "2024-01-02 11:00:00"}
 	uDate3 = []string{"01/02/2024", "12/31/2023", "02/29/2024", "11/30/2024", "01/10/2024", "10/01/2024", "09/03/2022",
 		"12/31/1999", "01/01/2000", "02/01/2024", "01/03/2023"}
+	// numeric UTC offsets: one instant in several spellings (10:00Z six times in uDate4), civil order
+	// opposite to chronological order, day roll-over in both directions
+	uDate4 = []string{"2022-03-01T12:00:00+02:00", "2022-03-01T05:00:00-05:00", "2022-03-01T11:30:00+01:00",
+		"2022-03-02T00:00:00+14:00", "2022-03-01T19:00:00+09:00", "2022-02-28T22:30:00-12:00", "2022-03-01T10:00:00+00:00",
+		"2022-03-01T10:00:00-00:00", "2022-03-01T15:45:00+05:45", "2040-01-01T00:00:00-03:30", "2022-03-01T09:59:59+00:00",
+		"2022-03-01T08:00:00+01:00", "2022-03-01T23:59:59+14:00", "2022-03-01T00:00:00-12:00", "1999-12-31T23:00:00-01:00",
+		"2000-01-01T01:00:00+01:00"}
+	uDate5 = []string{"2022-03-01 12:00:00 +0200", "2022-03-01 05:00:00 -0500", "2022-03-01 10:00:00 +0000",
+		"2022-03-01 10:00:00 -0000", "2022-03-01 04:59:59 -0500", "2022-03-01 15:30:00 +0530", "2022-03-02 00:00:00 +1400",
+		"2022-02-28 23:00:00 -1100", "2022-03-01 11:30:00 +0100", "2022-03-01 03:00:00 -0700", "2022-03-01 10:00:01 +0000"}
 	uUnk = []string{"inf", "nan", "0x10", "1e400", "1_0", "NaN", "2023-02-30", "13/01/2024", "1e100", "-Inf", "0x1p4",
 		"Infinity", "2e400", "2024-1-2", "Jan 2, 2024"}
 )
@@ -84,6 +161,13 @@ func corePools() []poolSpec {
 		{"date1", []string{"2022-09-03", "2022-09-02", "2021-09-01", "2024-01-10", "2024-10-01"}},
 		{"date2", []string{"2024-01-02 10:11:12", "2024-01-02 09:00:00", "2023-12-31 23:59:59", "2024-01-02 10:11:13"}},
 		{"date3", []string{"01/02/2024", "12/31/2023", "02/29/2024", "11/30/2024", "01/03/2023"}},
+		{"date4-offsets", []string{"2022-03-01T08:00:00+01:00", "2022-03-01T12:00:00+02:00", "2022-03-01T05:00:00-05:00",
+			"2022-03-01T19:00:00+09:00", "2022-03-01T11:30:00+01:00"}},
+		{"date4-rollover", []string{"2022-03-02T00:00:00+14:00", "2022-02-28T22:30:00-12:00", "2022-03-01T10:00:00+00:00",
+			"2022-03-01T10:00:00-00:00", "2022-03-01T23:59:59+14:00", "2022-03-01T00:00:00-12:00", "2022-03-01T09:59:59+00:00"}},
+		{"date5-offsets", []string{"2022-03-01 12:00:00 +0200", "2022-03-01 05:00:00 -0500", "2022-03-01 10:00:00 +0000",
+			"2022-03-01 10:00:00 -0000", "2022-03-01 04:59:59 -0500", "2022-03-02 00:00:00 +1400"}},
+		{"date4-date5", []string{"2022-03-01T12:00:00+02:00", "2022-03-01 05:00:00 -0500", "2022-03-01T11:30:00+01:00", "2022-03-01 10:00:01 +0000"}},
 		{"date1-date2", []string{"2024-01-02", "2024-01-02 09:00:00", "2023-12-31", "2023-12-31 23:59:59"}},
 		{"date1-date3", []string{"2024-01-02", "12/31/2023", "2023-12-30", "01/01/2024"}},
 		{"date-text", []string{"2022-09-03", "2022-09-02", "notadate", "2021-09-01"}},
@@ -141,14 +225,15 @@ func randomPools(r *rand.Rand, n int, big int) []poolSpec {
 	homog := []struct {
 		l string
 		u []string
-	}{{"num", uNum}, {"text", uText}, {"week", uWeek}, {"month", uMonth}, {"date1", uDate1}, {"date2", uDate2}, {"date3", uDate3}}
+	}{{"num", uNum}, {"text", uText}, {"week", uWeek}, {"month", uMonth}, {"date1", uDate1}, {"date2", uDate2}, {"date3", uDate3},
+		{"date4", uDate4}, {"date5", uDate5}}
 	mixes := []struct {
 		l string
 		u []string
 	}{{"num+text", union(uNum, uText)}, {"week+text", union(uWeek, uText)}, {"week+month", union(uWeek, uMonth)},
 		{"num+week+month", union(uNum, uWeek, uMonth)}, {"dates", union(uDate1, uDate2, uDate3)},
 		{"date1+text", union(uDate1, uText)}, {"all", union(uNum, uText, uWeek, uMonth, uDate1, uDate3)},
-		{"num+unk", union(uNum, uUnk)}, {"text+unk", union(uText, uUnk)}}
+		{"num+unk", union(uNum, uUnk)}, {"text+unk", union(uText, uUnk)}, {"date4+text", union(uDate4, uText)}}
 	var out []poolSpec
 	for i := 0; i < n; i++ {
 		var names []string
@@ -170,7 +255,11 @@ func randomPools(r *rand.Rand, n int, big int) []poolSpec {
 		case 1:
 			out = append(out, poolSpec{"big-week+month", pick(r, union(uWeek, uMonth), 14+r.Intn(8))})
 		case 2:
-			out = append(out, poolSpec{"big-dates", pick(r, union(uDate1, uDate3), 14+r.Intn(6))})
+			if i%8 == 2 {
+				out = append(out, poolSpec{"big-date4", pick(r, uDate4, 14+r.Intn(3))})
+			} else {
+				out = append(out, poolSpec{"big-dates", pick(r, union(uDate1, uDate3), 14+r.Intn(6))})
+			}
 		default:
 			out = append(out, poolSpec{"big-all", pick(r, union(uNum, uText, uWeek, uDate1), 14+r.Intn(8))})
 		}
@@ -178,13 +267,34 @@ func randomPools(r *rand.Rand, n int, big int) []poolSpec {
 	return out
 }
 
-func withValues(r *rand.Rand, names []string, mode string) []Key {
-	vals := []int64{0, 1, 1, 2, 3, 5, 5, 100, -1}
-	out := make([]Key, len(names))
-	for i, n := range names {
-		out[i] = Key{n, vals[r.Intn(len(vals))]}
+// value maps of the value-mode pools, by pool index; every other mode (where the totals must not
+// matter) gets a wide map for one pool in four
+var valueMaps = []VMap{idMap, {3, "zero"}, {3, "top"}, {3, "lsb"}, idMap, {4, "one"}, {2, "top"}, {8, "lsb"}, {8, "zero"}, {3, "one"}, {16, "top"}, {5, "zero"}}
+
+func withValues(r *rand.Rand, names []string, mode string, pi int) ([]Key, VMap) {
+	vm := idMap
+	if mode == "value" {
+		vm = valueMaps[(pi+int(vh.Seed()))%len(valueMaps)]
+	} else if r.Intn(4) == 0 {
+		vm = valueMaps[1+r.Intn(len(valueMaps)-1)]
 	}
-	return out
+	vals := make([]int64, len(names))
+	small := []int64{0, 1, 1, 2, 3, 5, 5, 100, -1}
+	for i := range names {
+		if vm.W == 0 {
+			vals[i] = small[r.Intn(len(small))]
+		} else {
+			lo, hi := vm.domain()
+			vals[i] = lo + r.Int63n(hi-lo+1)
+			if vm.Off == "lsb" && i%2 == 1 && r.Intn(2) == 0 { // a neighbour of the key before
+				vals[i] = vals[i-1] ^ 1
+			}
+		}
+	}
+	if vm.W > 0 && len(vals) >= 2 { // both extremes of the type: the code sees MinInt64 / (with "top") MaxInt64
+		vals[0], vals[1] = vm.domain()
+	}
+	return vm.keys(names, vals), vm
 }
 
 // ------------------------------------------------------------------ sort strings
@@ -229,7 +339,7 @@ type sortFn func(keys []Key, sorter sorting.NameValueSorter) []string
 func viaSort(keys []Key, sorter sorting.NameValueSorter) []string {
 	arr := make([]sorting.NameValuePair, len(keys))
 	for i, k := range keys {
-		arr[i] = sorting.NameValuePair{Name: k.Name, Value: k.Value}
+		arr[i] = nv(k)
 	}
 	sorting.Sort(arr, sorter)
 	out := make([]string, len(arr))
@@ -249,7 +359,7 @@ func viaSortBy(keys []Key, sorter sorting.NameValueSorter) []string {
 		arr[i] = wrapped{k, i}
 	}
 	sorting.SortBy(arr, sorter, func(w wrapped) sorting.NameValuePair {
-		return sorting.NameValuePair{Name: w.k.Name, Value: w.k.Value}
+		return nv(w.k)
 	})
 	out := make([]string, len(arr))
 	for i, a := range arr {
@@ -278,11 +388,18 @@ func buildAggs(keys []Key) *aggs {
 	if err := a.groups.AddDataExpr("c", "{sumi {.} 1}", "0"); err != nil {
 		panic(err)
 	}
-	for _, k := range keys {
-		a.counter.SampleValue(k.Name, k.Value)
-		a.subkey.SampleValue(k.Name, "s", k.Value)
-		a.rows.SampleItem("c", k.Name, k.Value)
-		a.cols.SampleItem(k.Name, "r", k.Value)
+	for i, k := range keys {
+		a.counter.SampleValue(k.Name, k.Real)
+		a.subkey.SampleValue(k.Name, "s", k.Real)
+		// rows / columns are ordered by their total: the sum of two cells (sampled in either order)
+		x, y := split(k.Real)
+		if i%2 == 1 {
+			x, y = y, x
+		}
+		a.rows.SampleItem("c", k.Name, x)
+		a.rows.SampleItem("d", k.Name, y)
+		a.cols.SampleItem(k.Name, "r", x)
+		a.cols.SampleItem(k.Name, "q", y)
 		a.groups.Sample(k.Name)
 	}
 	return a
@@ -329,11 +446,38 @@ func (a *aggs) viaGroups(s sorting.NameSorter) []string {
 }
 
 func mustSorter(s string) sorting.NameValueSorter {
+	if strings.HasPrefix(s, "pkg:") {
+		return pkgSorter(s[4:])
+	}
 	srt, err := helpers.BuildSorter(s)
 	if err != nil {
 		panic(fmt.Sprintf("BuildSorter(%q): %v", s, err))
 	}
 	return srt
+}
+
+// the package-level sorters (CSV writers, library users) by the sort string they mean; inside the
+// driver they are addressed as "pkg:<sort>", the trace records src = "pkg" and the plain string
+func pkgSorter(s string) sorting.NameValueSorter {
+	switch s {
+	case "text":
+		return sorting.NVNameSorter
+	case "numeric":
+		return sorting.NVSmartSorter
+	case "value":
+		return sorting.NVValueSorter
+	}
+	panic("no package-level sorter for " + s)
+}
+
+func hasPkgSorter(mode string) bool { return mode == "text" || mode == "numeric" || mode == "value" }
+
+// (src, sort string) of a driver-internal sorter name
+func srcOf(s string) (string, []int) {
+	if strings.HasPrefix(s, "pkg:") {
+		return "pkg", vh.BS(s[4:])
+	}
+	return "build", vh.BS(s)
 }
 
 // ------------------------------------------------------------------ recording
@@ -342,21 +486,23 @@ type tracer struct {
 	r    *rand.Rand
 	tid  int
 	pool []Key
+	vmap VMap
 	idx  map[string]int // name -> 1-based pool position
 	st   struct{ traces, mats, sorts, sortRecs, cli int }
 }
 
-func (t *tracer) reset(mode string, pool []Key) {
+func (t *tracer) reset(mode string, pool []Key, vm VMap) {
 	t.tid++
 	t.st.traces++
 	t.pool = pool
+	t.vmap = vm
 	t.idx = map[string]int{}
 	jp := make([]jkey, len(pool))
 	for i, k := range pool {
 		t.idx[k.Name] = i + 1
-		jp[i] = jkey{vh.BS(k.Name), k.Value}
+		jp[i] = jkey{vh.BS(k.Name), k.Value, fmt.Sprint(k.Real)}
 	}
-	t.w.Write(M{"event": "reset", "t": t.tid, "mode": mode, "pool": jp})
+	t.w.Write(M{"event": "reset", "t": t.tid, "mode": mode, "vmap": vm, "pool": jp})
 }
 
 func (t *tracer) toIdx(names []string) []int {
@@ -393,12 +539,13 @@ func (t *tracer) matrix(srt string, fresh bool) {
 			s = mustSorter(srt)
 		}
 		a, b := t.pool[p.i], t.pool[p.j]
-		if s(sorting.NameValuePair{Name: a.Name, Value: a.Value}, sorting.NameValuePair{Name: b.Name, Value: b.Value}) {
+		if s(nv(a), nv(b)) {
 			m[p.i][p.j] = 1
 		}
 	}
 	t.st.mats++
-	t.w.Write(M{"event": "mat", "sort": vh.BS(srt), "fresh": fresh, "m": m})
+	src, name := srcOf(srt)
+	t.w.Write(M{"event": "mat", "src": src, "sort": name, "fresh": fresh, "m": m})
 }
 
 type outRec struct {
@@ -438,7 +585,8 @@ func (g *sortGroup) flush() {
 		return
 	}
 	g.t.st.sortRecs++
-	g.t.w.Write(M{"event": "sorted", "sort": vh.BS(g.srt), "via": g.via, "reuse": g.reuse, "sub": g.sub, "n": g.n, "outs": g.outs})
+	src, name := srcOf(g.srt)
+	g.t.w.Write(M{"event": "sorted", "src": src, "sort": name, "via": g.via, "reuse": g.reuse, "sub": g.sub, "n": g.n, "outs": g.outs})
 }
 
 func permutations(a []int, f func([]int)) {
@@ -543,6 +691,87 @@ func (t *tracer) sortGrowing(srt string) {
 	}
 }
 
+// A LONG-LIVED set of aggregators: keys arrive and totals change between displays (what the
+// aggregation loop does between two ticks).  Every stage is its own trace - the pool is the keys
+// and totals the aggregators hold at that moment - and every sorted accessor is called after
+// every batch of increments, with comparators that live as long as the aggregators do.
+func (t *tracer) evolve(mode string, names []string, vm VMap, srts []string, stages int) {
+	n := len(names)
+	if n < 3 {
+		return
+	}
+	a := buildAggs(nil)
+	cur := map[string]int64{} // specification totals now
+	sorters := map[string]sorting.NameValueSorter{}
+	for _, s := range srts {
+		sorters[s] = mustSorter(s)
+	}
+	var lo, hi int64
+	if vm.W > 0 {
+		lo, hi = vm.domain()
+	}
+	order := t.r.Perm(n)
+	for st := 1; st <= stages; st++ {
+		// keys present after this stage: a growing prefix of a random arrival order; every present key
+		// gets a new total (some keep theirs)
+		present := order[:2+(n-2)*st/stages]
+		for _, i := range t.r.Perm(len(present)) {
+			name := names[present[i]]
+			old, had := cur[name]
+			nw := old
+			if !had || t.r.Intn(3) > 0 {
+				if vm.W == 0 {
+					nw = int64(t.r.Intn(9)) - 2
+				} else {
+					nw = lo + t.r.Int63n(hi-lo+1)
+				}
+			}
+			var oldReal int64
+			if had {
+				oldReal = vm.embed(old)
+			}
+			a.sample(name, vm.embed(nw)-oldReal, !had) // wraps exactly like the aggregator's own +=
+			cur[name] = nw
+		}
+		pool := make([]Key, 0, len(present))
+		idx := append([]int{}, present...)
+		sort.Ints(idx)
+		for _, i := range idx {
+			pool = append(pool, Key{names[i], cur[names[i]], vm.embed(cur[names[i]])})
+		}
+		a.n = len(pool)
+		t.reset(mode, pool, vm)
+		all := make([]int, len(pool))
+		for i := range all {
+			all[i] = i
+		}
+		for _, s := range srts {
+			t.matrix(s, false)
+			for _, via := range aggVias {
+				g := &sortGroup{t: t, srt: s, via: "live:" + via, reuse: true, sub: plus1(all)}
+				for c := 0; c < 4; c++ {
+					g.add(nil, t.toIdx(a.via(via, sorters[s])))
+				}
+				g.flush()
+			}
+		}
+	}
+}
+
+// one increment of a key's total in every aggregator (first: the key is new)
+func (a *aggs) sample(name string, inc int64, first bool) {
+	a.counter.SampleValue(name, inc)
+	a.subkey.SampleValue(name, "s", inc)
+	x, y := split(inc)
+	a.rows.SampleItem("c", name, x)
+	a.rows.SampleItem("d", name, y)
+	a.cols.SampleItem(name, "r", y)
+	a.cols.SampleItem(name, "q", x)
+	if first {
+		a.groups.Sample(name)
+	}
+}
+
 func (t *tracer) sortAggregators(srt string, calls int, reuse bool) {
 	n := len(t.pool)
 	all := make([]int, n)
@@ -601,7 +830,8 @@ func (t *tracer) sortTop(srt string, calls int) {
 			}
 		}
 		t.st.sortRecs++
-		t.w.Write(M{"event": "top", "sort": vh.BS(srt), "via": "ItemsSortedBy/top", "k": k, "n": calls, "outs": outs})
+		src, name := srcOf(srt)
+		t.w.Write(M{"event": "top", "src": src, "sort": name, "via": "ItemsSortedBy/top", "k": k, "n": calls, "outs": outs})
 	}
 }
 
@@ -635,7 +865,7 @@ func (t *tracer) sortGroups(calls int) {
 // ------------------------------------------------------------------ the rare binary
 func cliSafe(pool []Key) bool {
 	for _, k := range pool {
-		if k.Name == "" || strings.ContainsAny(k.Name, "\t\n\r{}") || strings.TrimSpace(k.Name) != k.Name || k.Value < 1 { // histo draws nothing for a zero total
+		if k.Name == "" || strings.ContainsAny(k.Name, "\t\n\r{}") || strings.TrimSpace(k.Name) != k.Name {
 			return false
 		}
 		for _, c := range []byte(k.Name) {
@@ -687,7 +917,36 @@ func (t *tracer) runRare(rare, dir string, args []string, input string) (string,
 	return so.String(), nil
 }
 
-// rare histo|bars|table --snapshot over the same data in several line orders
+func allPositive(pool []Key) bool {
+	for _, k := range pool {
+		if k.Real < 1 { // histo draws nothing for a zero total
+			return false
+		}
+	}
+	return true
+}
+
+func noSpaces(pool []Key) bool {
+	for _, k := range pool {
+		if strings.ContainsAny(k.Name, " ") {
+			return false
+		}
+	}
+	return true
+}
+
+// column order of `rare table`: the names of the header line
+func parseCols(out string, pool []Key, _ func(string) bool) []string {
+	for _, line := range strings.Split(out, "\n") {
+		if strings.TrimSpace(line) != "" {
+			return strings.Fields(line)
+		}
+	}
+	return nil
+}
+
+// rare histo|bars|table --snapshot over the same data in several line orders; the total of a key
+// arrives in two increments
 func (t *tracer) cli(rare, dir, srt string, orders int) error {
 	n := len(t.pool)
 	all := make([]int, n)
@@ -695,30 +954,40 @@ func (t *tracer) cli(rare, dir, srt string, orders int) error {
 		all[i] = i
 	}
 	type cmdSpec struct {
-		via  string
-		args []string
-		line func(k Key) string
-		skip func(string) bool
+		via   string
+		args  []string
+		ok    bool
+		parse func(string, []Key, func(string) bool) []string
 	}
-	kv := func(k Key) string { return fmt.Sprintf("%s\t%d\n", k.Name, k.Value) }
+	rx := "^([^\\t]*)\\t(.*)$"
 	specs := []cmdSpec{
-		{"cli:histo", []string{"--nocolor", "histo", "--snapshot", "-n", "1000", "-m", "^([^\\t]*)\\t(.*)$", "-e", "{$ {1} {2}}", "--sort", srt}, kv, nil},
-		{"cli:bars", []string{"--nocolor", "bars", "--snapshot", "-m", "^([^\\t]*)\\t(.*)$", "-e", "{$ {1} s {2}}", "--sort", srt}, kv, nil},
-		{"cli:table-rows", []string{"--nocolor", "table", "--snapshot", "--rows", "1000", "-m", "^([^\\t]*)\\t(.*)$", "-e", "{$ c {1} {2}}", "--sort-rows", srt}, kv, nil},
+		{"cli:histo", []string{"--nocolor", "histo", "--snapshot", "-n", "1000", "-m", rx, "-e", "{$ {1} {2}}", "--sort", srt}, allPositive(t.pool), parseRows},
+		{"cli:bars", []string{"--nocolor", "bars", "--snapshot", "-m", rx, "-e", "{$ {1} s {2}}", "--sort", srt}, true, parseRows},
+		{"cli:table-rows", []string{"--nocolor", "table", "--snapshot", "--rows", "1000", "-m", rx, "-e", "{$ c {1} {2}}", "--sort-rows", srt}, true, parseRows},
+		{"cli:table-cols", []string{"--nocolor", "table", "--snapshot", "--cols", "1000", "-m", rx, "-e", "{$ {1} r {2}}", "--sort-cols", srt}, noSpaces(t.pool), parseCols},
 	}
 	for _, sp := range specs {
+		if !sp.ok {
+			continue
+		}
 		g := &sortGroup{t: t, srt: srt, via: sp.via, reuse: true, sub: plus1(all)}
 		for o := 0; o < orders; o++ {
+			// two increments per key, the second halves in another random order
 			p := t.r.Perm(n)
 			var sb strings.Builder
 			for _, i := range p {
-				sb.WriteString(sp.line(t.pool[i]))
+				x, _ := split(t.pool[i].Real)
+				fmt.Fprintf(&sb, "%s\t%d\n", t.pool[i].Name, x)
+			}
+			for _, i := range t.r.Perm(n) {
+				_, y := split(t.pool[i].Real)
+				fmt.Fprintf(&sb, "%s\t%d\n", t.pool[i].Name, y)
 			}
 			out, err := t.runRare(rare, dir, sp.args, sb.String())
 			if err != nil {
 				return err
 			}
-			rows := parseRows(out, t.pool, sp.skip)
+			rows := sp.parse(out, t.pool, nil)
 			if len(rows) != n {
 				return fmt.Errorf("%s: could not read %d rows from the output (got %d):\n%s", sp.via, n, len(rows), out)
 			}
@@ -741,6 +1010,7 @@ func c13Trace(args []string) error {
 	rperms := fs.Int("perms", 40, "random permutations of the full pool")
 	rare := fs.String("rare", "", "rare binary for the CLI runs")
 	ncli := fs.Int("cli", 6, "pools run through the rare binary per mode")
+	nstages := fs.Int("stages", 3, "stages of a long-lived aggregator history (every 4th pool)")
 	if err := fs.Parse(args); err != nil {
 		return err
 	}
@@ -760,9 +1030,9 @@ func c13Trace(args []string) error {
 	for _, mode := range modes {
 		cliLeft := *ncli
 		for pi, ps := range pools {
-			pool := withValues(r, ps.names, mode)
+			pool, vm := withValues(r, ps.names, mode, pi)
 			n := len(pool)
-			t.reset(mode, pool)
+			t.reset(mode, pool, vm)
 			for _, c := range pick(r, buildCandidates(r, mode), 3) {
 				_, e := helpers.BuildSorter(c)
 				w.Write(M{"event": "build", "sort": vh.BS(c), "ok": e == nil})
@@ -772,9 +1042,20 @@ func c13Trace(args []string) error {
 				t.matrix(s, true)
 				t.matrix(s, false)
 			}
+			all := srts[:3]
+			if hasPkgSorter(mode) { // the package-level sorter of this meaning: own matrices, own canonical order
+				pk := "pkg:" + mode
+				t.matrix(pk, true)
+				t.matrix(pk, false)
+				t.sortRandomPerms(pk, "SortBy", viaSortBy, *rperms/2, true)
+				t.sortRandomPerms(pk, "Sort", viaSort, *rperms/2, true)
+				t.sortAggregators(pk, 6, true)
+				t.sortTop(pk, 4)
+				all = append(append([]string{}, all...), pk)
+			}
 			// every permutation of every <=5-subset (small pools) / of a sample of subsets, both
 			// directions; a comparator instance shared by all sorts of the subset AND a new one per sort
-			for si, s := range srts[:3] {
+			for si, s := range all {
 				if si == 1 && mode != "value" { // ":asc" is the bare name except for value
 					continue
 				}
@@ -815,6 +1096,10 @@ func c13Trace(args []string) error {
 					}
 				}
 			}
+			// last (it opens traces of its own): a long-lived aggregator history over these names
+			if pi%4 == int(vh.Seed())%4 {
+				t.evolve(mode, ps.names, vm, []string{srts[0], srts[2]}, *nstages)
+			}
 		}
 	}
 	if *stats != "" {
@@ -826,11 +1111,13 @@ func c13Trace(args []string) error {
 
 // ------------------------------------------------------------------ replay command (B1)
 type vector struct {
-	Mode   string `json:"mode"`
-	Cls    string `json:"cls"`
-	Sort   []int  `json:"sort"`
-	Pool   []jkey `json:"pool"`
-	Expect []int  `json:"expect"`
+	Mode  string `json:"mode"`
+	Cls   string `json:"cls"`
+	Sort  []int  `json:"sort"`
+	Pool  []jkey `json:"pool"`
+	VMap  VMap   `json:"vmap"`
+	Fixed bool   `json:"fixed"`
+	Ranks []int  `json:"ranks"` // per pool position: number of keys the specification puts strictly before it
 }
 
 func c13Replay(args []string) error {
@@ -862,9 +1149,12 @@ func c13Replay(args []string) error {
 		idx := map[string]int{}
 		names := make([]string, len(v.Pool))
 		for i, k := range v.Pool {
-			pool[i] = Key{string(vh.FromInts(k.Name)), k.Value}
+			pool[i] = Key{string(vh.FromInts(k.Name)), k.Value, v.VMap.embed(k.Value)}
 			idx[pool[i].Name] = i + 1
 			names[i] = pool[i].Name
+		}
+		if len(v.Ranks) != len(pool) {
+			return fmt.Errorf("vector %d: %d ranks for %d keys", vectors+1, len(v.Ranks), len(pool))
 		}
 		if len(pool) >= 3 {
 			nontrivial++
@@ -874,16 +1164,44 @@ func c13Replay(args []string) error {
 			return nil
 		}
 		if len(samples) < 3 && len(pool) >= 3 && vectors%97 == 0 {
-			samples = append(samples, M{"mode": v.Mode, "sort": srt, "pool": names, "expect": v.Expect})
+			samples = append(samples, M{"mode": v.Mode, "sort": srt, "pool": names, "vmap": v.VMap, "ranks": v.Ranks})
+		}
+		// accepted: a rearrangement of the pool whose specified ranks never decrease, and the same
+		// sequence as every other start of this pool produced (one report of each kind per vector)
+		var first []int
+		reported := map[string]bool{}
+		report := func(kind, via string, perm, g []int) {
+			if !reported[kind] {
+				reported[kind] = true
+				mism = append(mism, mismatch{v, via, append([]int{}, perm...), g, names, kind})
+			}
 		}
 		check := func(via string, perm []int, got []string) {
 			runs++
 			g := make([]int, len(got))
+			seen := map[int]bool{}
+			okPerm := len(got) == len(pool)
 			for i, n := range got {
 				g[i] = idx[n]
+				if g[i] == 0 || seen[g[i]] {
+					okPerm = false
+				}
+				seen[g[i]] = true
 			}
-			if !vh.EqInts(g, v.Expect) {
-				mism = append(mism, mismatch{v, via, append([]int{}, perm...), g, names, "order"})
+			if !okPerm {
+				report("perm", via, perm, g)
+				return
+			}
+			for i := 1; i < len(g); i++ {
+				if v.Ranks[g[i]-1] < v.Ranks[g[i-1]-1] {
+					report("order", via, perm, g)
+					break
+				}
+			}
+			if first == nil {
+				first = g
+			} else if !vh.EqInts(first, g) {
+				report("unstable", via, perm, g)
 			}
 		}
 		all := make([]int, len(pool))
